@@ -27,7 +27,10 @@ RULE = ("valid streams of every method (sequential, kd-tree, Edgebreaker standar
         'whose six per-context symbol counts are located by the model tag at:valence_context_count'
         '; multi-decoder streams are walked decoder by decoder, Edgebreaker decoder heads are copied / swapped '
         '(eb_decoder_head_mutations), re-laid-out legacy meshes (props/meshlegacy.py) and last_corner_fan bases '
-        'are part of the foreign / structured families; the per-op watchdog counts CPU time')
+        'are part of the foreign / structured families; the per-op watchdog counts CPU time; hand-assembled '
+        'geometry-metadata chains of 1, 999..1002 (thorough: ..2000) nested levels around kMaxSubmetadataLevel '
+        '(status vs the Lean model) and one of 700000 levels (must be refused without exhausting the stack; the '
+        'encoder never writes these, so only assembled streams reach the decoder there)')
 THEOREM_BACKED = ('DracoProps.C02: decode_total; decode_returns_status (decodeGeometrySeq) and decode_returns_status_with '
                   '(dispatcher with arbitrary disciplined body decoders); decode_some_ok_valid; decode_consumes_prefix / '
                   'consumed_le_length; unknown_major_rejected / unknown_minor_rejected (version gate, any body decoders); '
@@ -80,6 +83,8 @@ def generate(rng, tier):
     cases += R.structured_cases(rng, tier, FLAVOUR, ORACLES, n_each=8 if thorough else 5)
     cases += R.tamper_cases(rng, tier, FLAVOUR, ORACLES, budget=None if thorough else 6000)
     cases += R.foreign_corrupt_cases(rng, tier, FLAVOUR)
+    # hand-assembled metadata chains across kMaxSubmetadataLevel and far beyond it (seeded C02-8)
+    cases += R.metadata_chain_cases(streams, tier, FLAVOUR, ORACLES)
     return cases
 
 
